@@ -280,10 +280,10 @@ def _propagate(chain, path):
             # an element of UNKNOWN type is compared with nothing: the literal is an array whatever its elements are
             return 'array-element-type-unchecked'
         if pk in progen.STR_NODES:
-            # (+ a b) on strings is the arithmetic operator: UNKNOWN passes through; the builtins have signatures
+            # (+ UNKNOWN string) is typed string on purpose ("preserves the string context through nested (+ a (+ b c))",
+            # src/typechecker.c): the other operand of a string + absorbs UNKNOWN; the builtins' operands are never looked at
             if pk == 's2' and pn[1] == 'plus':
-                i -= 1
-                continue
+                return 'string-plus-unknown-operand'
             return 'string-builtin-arg-unchecked'
         if pk == 'print':
             return 'print-arg-unchecked'
@@ -322,6 +322,10 @@ def root_cause(rule, orig_fn, path, arg=0):
             return 'at-index-unchecked' if arg % 2 == 1 else 'at-array-operand-unchecked'
         if oc == 'len':
             return 'array-length-arg-unchecked'
+        if oc in progen.STR_NODES:
+            # the operands of (+ a b) are compared (string + string or numbers: TYPE MISMATCH, the sum is UNKNOWN and the consumers
+            # above decide, as for arithmetic); the string builtins' operands are never looked at
+            return _propagate(chain, path) if (oc == 's2' and node[1] == 'plus') else 'string-builtin-arg-unchecked'
         if oc == 'arr':
             # the first element becomes a bool/string literal.  A one-element literal is then an array of bools/strings, which
             # passes for array<int> everywhere.  With more elements the checker prints "Array elements must all have the same
